@@ -206,7 +206,7 @@ func c07Gen(c *core.Ctx) {
 		cs := c07Case{Kind: "random"}
 		nu := 2 + r.IntN(7)
 		for k := 0; k < nu; k++ {
-			g2 := gen.New(r, gen.Options{Budget: 2 + r.IntN(8), Heredocs: (i+k)%2 == 0, Flat: k%3 == 0})
+			g2 := gen.New(r, gen.Options{Budget: 2 + r.IntN(8), Heredocs: (i+k)%2 == 0, Flat: k%3 == 0, LeadHD: (i+k)%5 == 0})
 			_ = g
 			u := c07Unit1(r, i*16+k, g2, k == nu-1)
 			if k < nu-1 && !strings.HasSuffix(u.Text, "\n") {
@@ -348,7 +348,7 @@ func c10Gen(c *core.Ctx) {
 			continue
 		}
 		r := c.Rand("prog", int64(i))
-		o := gen.Options{Budget: 3 + r.IntN(10), Heredocs: i%3 == 0, Flat: i%4 == 1}
+		o := gen.Options{Budget: 3 + r.IntN(10), Heredocs: i%3 == 0, Flat: i%4 == 1, LeadHD: i%6 == 2}
 		core.Run(c, c10Case{Prog: gen.New(r, o).Program(), Seed: uint64(c.Seed)*611953 + uint64(i), Kind: "generated"}, c10Exec)
 	}
 	for _, s := range prDedicated {
